@@ -74,11 +74,19 @@ func execMethodFunction(vm *r.VM, root r.Element, funcName *r.IDName, params []r
 	}
 
 	elem, err := root.ExecMethod(funcName.GetLiteral(), params)
-	if err == nil {
+	if err == nil || isLoopSignal(err) {
 		vm.PopCallFrame()
 	}
 
 	return elem, err
+}
+
+// isLoopSignal - 结束循环 / 继续循环 that leaves a function body: the signal goes on to the
+// caller's loop, i.e. the call HAS ended and its frame must not stay on the call stack
+// (otherwise it would show up in the call chain of a later error)
+func isLoopSignal(err error) bool {
+	s, ok := err.(*zerr.Signal)
+	return ok && (s.SigType == zerr.SigTypeBreak || s.SigType == zerr.SigTypeContinue)
 }
 
 // direct function: defined as standalone function instead of the method of
@@ -99,6 +107,9 @@ func execDirectFunction(vm *r.VM, funcName *r.IDName, params []r.Element) (r.Ele
 	}
 
 	if elem, err := fn.Exec(nil, params); err != nil {
+		if isLoopSignal(err) {
+			vm.PopCallFrame()
+		}
 		return nil, err
 	} else {
 		vm.PopCallFrame()
